@@ -62,3 +62,11 @@ M("c02-spawn-restart-before-join", "C02", A, "TaskGroup._spawn",
   "        self.cancel_scope._tasks.add(task)\n        self._tasks.add(task)\n        self.cancel_scope._restart_cancellation()\n",
   "        self.cancel_scope._restart_cancellation()\n        self.cancel_scope._tasks.add(task)\n        self._tasks.add(task)\n", ["R02-f"])
 M("c02-spawn-no-restart", "C02", A, "TaskGroup._spawn", "        self.cancel_scope._restart_cancellation()\n", "", ["R02-f"])
+
+# from seeded changes C02/g, C02/h (round 4)
+M("c02-classifier-walks-cause", "C02", A, "is_anyio_cancellation",
+  "        if isinstance(exc.__context__, CancelledError):\n            exc = exc.__context__\n",
+  "        if isinstance(exc.__cause__, CancelledError):\n            exc = exc.__cause__\n", ["R02-g"])
+M("c02-restart-gives-up-at-shielded-cancelled-scope", "C02", A, "CancelScope._restart_cancellation",
+  "            if scope._cancel_called:\n                if scope._cancel_handle is None:\n                    scope._deliver_cancellation(scope)\n\n                break\n\n            # No point in looking beyond any shielded scope\n            if scope._shield:\n                break\n",
+  "            if scope._shield:\n                break\n\n            if scope._cancel_called:\n                if scope._cancel_handle is None:\n                    scope._deliver_cancellation(scope)\n\n                break\n", ["R02-h"])
